@@ -59,8 +59,8 @@ def oracle(summary):
         return viol
     v = closed[0][1]
     h = summary["hist"]
-    if internal:
-        return viol          # internal failures are C14's business
+    # (an internal failure is C14's business as such, but what the application is told and what is left behind on
+    # the server are judged here all the same)
     ok = True
     if v == "happy":
         ok = h["good"] and not h["bad"]
